@@ -74,6 +74,18 @@ def r_C06bcd(root):
     _text_flow(MM, "TextXMetaModel.internal_model_from_file", "get_model_from_str")
     _text_flow(M, "get_model_parser.TextXModelParser.get_model_from_str", "parse", recv_ok=lambda c: isinstance(c.func, ast.Attribute) and ast.unparse(c.func.value) == "self")
     _text_flow(M, "get_model_parser.TextXModelParser.get_model_from_file", "get_model_from_str")
+    # who may write the parser's input text: nobody in textX (arpeggio's Parser.parse stores the caller's text; a rewrite afterwards moves every position)
+    n_in = 0
+    for rel in (M, MM, "textx/lang.py"):
+        for n in ast.walk(load(root, rel)):
+            tgs = n.targets if isinstance(n, ast.Assign) else ([n.target] if isinstance(n, (ast.AugAssign, ast.AnnAssign)) else [])
+            for tg in tgs:
+                for x in ast.walk(tg):
+                    if isinstance(x, ast.Attribute) and x.attr == "input" and isinstance(x.ctx, ast.Store):
+                        n_in += 1
+                        for pr in ("C06", "C04", "C28"): out.append(Finding(pr, "C06.c", rel, qualname(n), " ".join(ast.unparse(n).split())[:100], "the parser's input text is rewritten by textX: every position, slice, nchar, line/col and string value then refers to the rewritten text, not to the text the caller passed / the file holds (and results memoised for the earlier text stay in the caches)", witness="model text with CRLF line ends / a leading byte order mark"))
+    inst += 1
+    for pr in ("C06", "C04", "C28"): ob(pr, "C06.c", M, "TextXModelParser", "no function of textX assigns the parser's input text", n_in == 0)
     # ---- C06.d
     inst += 1
     for rel in (M, MM, "textx/lang.py", "textx/scoping/__init__.py", "textx/scoping/providers.py", "textx/scoping/rrel.py", "textx/scoping/tools.py", "textx/exceptions.py"):
